@@ -72,7 +72,7 @@ func c18(c *ctx) {
 				okEof = true
 			}
 		}
-		ok := strings.Contains(recv, ".streams["+hbVal+"]") && okEof && sid != nil && c.p.path(sid) == hbVal
+		ok := has(recv, ".streams["+hbVal+"]") && okEof && sid != nil && c.p.path(sid) == hbVal
 		r.Check(ok, "R1/unlocked-queueSend/"+fnName(enclosing(s.Caller)), c.p.Pos(s.Site.Pos()), "single self-contained heartbeat packet on the heartbeat stream",
 			fnName(s.Caller)+" calls queueSend without the stream mutex on "+recv+": packets of a multi-packet message on that stream could be interleaved and merged by the receiver")
 	}
@@ -235,7 +235,7 @@ func c18(c *ctx) {
 		}
 		for _, cs := range callsIn(recvSvc, true, handlePacket) {
 			p, info := c.p.path(recvOf(cs)), c.p.path(argOf(cs, 0))
-			r.Check(strings.Contains(p, ".streams[") && strings.Contains(p, ".StreamId]"), "R5/receive/stream-by-packet-topic", c.p.Pos(cs.Pos()), "stream = c.streams[packet.StreamId]", "the receive service hands the packet to "+p+", not to the stream named by the packet")
+			r.Check(has(p, ".streams[") && has(p, ".StreamId]"), "R5/receive/stream-by-packet-topic", c.p.Pos(cs.Pos()), "stream = c.streams[packet.StreamId]", "the receive service hands the packet to "+p+", not to the stream named by the packet")
 			r.Check(info == "$0.peerInfo", "R5/receive/authenticated-sender", c.p.Pos(cs.Pos()), "sender = the connection's peer info", "handlePacket is given sender "+info+" instead of the connection's authenticated peer info")
 		}
 		// the delivered message carries that sender
